@@ -11,7 +11,8 @@ do to the heap (mutate, rebind, however they end), the bindings and the contents
 user-code leaf and of the script lookup): the list restorers run on every way out (`restore_list_always`,
 `main_wrapper_restores`), the profiler installed into the global `@profile` is taken out again and the previous state
 put back exactly as often as it was installed (`install_balanced`), every timer that was started is stopped
-(`timers_stopped`), and `main` no longer carries decorators that capture import-time objects.
+(`timers_stopped`), `main` no longer carries decorators that capture import-time objects, and `autoprofile.run` brings the enable
+count back to what it found however the script ends (`autoprofile_switches_off`).
 -/
 namespace LPVerif.Props.C19
 open LPVerif.Skel LPVerif.Generated LPVerif.Kernprof
@@ -78,5 +79,25 @@ theorem install_balanced (env : Env Nat) (k : Nat) :
 theorem timers_stopped (env : Env Nat) (k : Nat) :
     timersBalanced (exec env kernprofFromInstall k).1 (exec env kernprofFromInstall k).2.1 = true :=
   forall_env_of_check kernprofFromInstall timersBalanced (by decide +kernel) env k
+
+/-! ## auto-profiling switches the profiler off again
+
+`autoprofile.run` executes the rewritten script; the registration calls in it switch the profiler on by count and nothing in the
+script switches it off (F-C19f).  Over the skeleton of `run` dumped from the tree: -/
+
+def winddownAfterExec : Out → List Nat → Bool := fun _ log =>
+  countIn role_ap_exec log == countIn role_ap_winddown log && before role_ap_save role_ap_exec log
+
+theorem autoprofile_leaves_exist : role_ap_exec.length = 1 ∧ role_ap_save.length = 1 ∧ role_ap_winddown.length = 1 := by decide
+
+/-- **C19 (no profiler is left enabled).** Whenever `autoprofile.run` gets as far as executing the script — however the script ends
+    (return, `SystemExit`, `KeyboardInterrupt`, any exception), whatever the rewriting or compiling before it does — the enable count
+    found before is recorded first and the count is brought back to it afterwards, exactly once (F-C19f, repaired in afd23fc) -/
+theorem autoprofile_switches_off (env : Env Nat) (k : Nat) :
+    winddownAfterExec (exec env autoprofileRun k).1 (exec env autoprofileRun k).2.1 = true :=
+  forall_env_of_check autoprofileRun winddownAfterExec (by decide +kernel) env k
+
+/-- not vacuous: there is an environment in which the script runs (and the wind-down with it) -/
+example : countIn role_ap_winddown (exec (⟨fun _ => true, fun _ => none⟩ : Env Nat) autoprofileRun 0).2.1 = 1 := by decide +kernel
 
 end LPVerif.Props.C19
